@@ -3134,17 +3134,14 @@ fn strip_nulls_object(header: u32, value: &[u8]) -> Result<ObjectBuilder<'_>, Er
 /// Possible types are object, array, string, number, boolean, and null.
 pub fn type_of(value: &[u8]) -> Result<&'static str, Error> {
     if !is_jsonb(value) {
-        return match value.first() {
-            Some(v) => match v {
-                b'n' => Ok(TYPE_NULL),
-                b't' | b'f' => Ok(TYPE_BOOLEAN),
-                b'0'..=b'9' | b'-' => Ok(TYPE_NUMBER),
-                b'"' => Ok(TYPE_STRING),
-                b'[' => Ok(TYPE_ARRAY),
-                b'{' => Ok(TYPE_OBJECT),
-                _ => Err(Error::Syntax(ParseErrorCode::ExpectedSomeValue, 0)),
-            },
-            None => Err(Error::Syntax(ParseErrorCode::InvalidEOF, 0)),
+        // the first byte tells the type only when the text has no leading white space
+        return match parse_value(value)? {
+            Value::Null => Ok(TYPE_NULL),
+            Value::Bool(_) => Ok(TYPE_BOOLEAN),
+            Value::Number(_) => Ok(TYPE_NUMBER),
+            Value::String(_) => Ok(TYPE_STRING),
+            Value::Array(_) => Ok(TYPE_ARRAY),
+            Value::Object(_) => Ok(TYPE_OBJECT),
         };
     }
 
